@@ -47,7 +47,10 @@ class Slot:
             self.fd, self.idx = fd, 0
         self.kani_target = os.path.join(CACHE, 'kani', 'slot%d' % self.idx)
         self.replay_target = os.path.join(CACHE, 'replay', 'slot%d' % self.idx)
-        self.scratch = os.path.join(SCRATCH_ROOT, 'ska_verif_slot%d' % self.idx)
+        # the scratch path is unique per cache directory (two copies of /verif, e.g. a vp-run snapshot, must not share it)
+        import hashlib
+        tag = hashlib.sha1(os.path.abspath(CACHE).encode()).hexdigest()[:8]
+        self.scratch = os.path.join(SCRATCH_ROOT, 'ska_verif_%s_slot%d' % (tag, self.idx))
         shutil.rmtree(self.scratch, ignore_errors=True)
         os.makedirs(self.scratch)
 
